@@ -11,7 +11,10 @@ from common import ToolError, log
 PROPS = {
     "C01": ("p_text", "check_c01"),
     "C02": ("p_text", "check_c02"),
+    "C03": ("p_analysis", "check_c03"),
     "C04": ("p_grammar", "check_c04"),
+    "C06": ("p_analysis", "check_c06"),
+    "C17": ("p_analysis", "check_c17"),
 }
 
 
